@@ -12,6 +12,7 @@ import HpxVerif.Model.Bilinear
 import HpxVerif.Model.C2V
 import HpxVerif.Model.Once
 import HpxVerif.Model.Ring
+import HpxVerif.Model.Cover
 
 namespace Hpx.Driver
 
@@ -184,6 +185,8 @@ def onceOp (n : Nat) (sched : List Nat) : String :=
 
 def stepRest (st : St) (toks : List String) : St × String :=
   match toks with
+  | ["cone", d, dd, lon, lat, r] =>
+    (st, optBmocLine (Cover.coneCoverageApproxCustom st.cfg (nat! d) (nat! dd) (fl lon) (fl lat) (fl r)))
   | ["rhash", n, lon, lat] => (st, optNat (Ring.hash st.debug (nat! n) (fl lon) (fl lat)))
   | ["rhashdxdy", n, lon, lat] =>
     (st, match Ring.hashWithDxDy st.debug (nat! n) (fl lon) (fl lat) with
